@@ -270,11 +270,17 @@ def _gen_world(rng, nfun, allow):
                 items.append({"k": "call", "f": "f%d" % j, "args": args, "kwargs": kwargs})
             elif k in ("call", "ref"):
                 items.append({"k": k, "f": "f%d" % j})
+                if "load" in allow and k == "call" and datafn[j] and rng.random() < 0.4:
+                    # the value the data function has just kept, read back in the same evaluation
+                    items.append({"k": "load", "path": "/df%d" % j})
             else:
                 args, kwargs, _ = gen_call_args(rng, specs[j], len(items), params)
                 items.append({"k": "keep", "path": newpath(), "f": "f%d" % j, "args": args, "kwargs": kwargs})
                 if rng.random() < 0.2:
                     items[-1]["wrap"] = ["w0", "w1"]
+                if "load" in allow and rng.random() < 0.4:
+                    # a load of the path just kept (its result can feed later run-time arguments)
+                    items.append({"k": "load", "path": items[-1]["path"]})
         reads = [v for (v, _) in vars_ if rng.random() < 0.5]
         funs.append({"name": "f%d" % i, "params": params, "store_path": ("/df%d" % i) if datafn[i] else None,
                      "tag": "f%d#0" % i, "reads": reads, "items": items, "fails": None, "uses_ext": rng.random() < 0.2,
